@@ -30,7 +30,10 @@ type recDB struct {
 	failAt int
 
 	nops     atomic.Int64
-	cancelAt int64
+	nreads   atomic.Int64
+	// failReadAt > 0: the failReadAt-th point read (Get / Has) returns errInjectedRead, once
+	failReadAt int64
+	cancelAt   int64
 	cancel   context.CancelFunc
 
 	kmu        sync.Mutex
@@ -55,6 +58,14 @@ type logEntry struct {
 }
 
 var errInjectedWrite = errors.New("verif: injected write failure (process is dead)")
+var errInjectedRead = errors.New("verif: injected read failure")
+
+func (d *recDB) readFault() error {
+	if n := d.nreads.Add(1); d.failReadAt > 0 && n == d.failReadAt {
+		return errInjectedRead
+	}
+	return nil
+}
 
 func newRecDB(inner db.KeyValueStore) *recDB {
 	return &recDB{inner: inner, failAt: -1, kinds: map[string]int{}}
@@ -109,11 +120,17 @@ func (d *recDB) opKinds() (map[string]int, string) {
 
 func (d *recDB) Has(key []byte) (bool, error) {
 	d.tick("read:has")
+	if err := d.readFault(); err != nil {
+		return false, err
+	}
 	return d.inner.Has(key)
 }
 
 func (d *recDB) Get(key []byte, cb func([]byte) error) error {
 	d.tick("read:get")
+	if err := d.readFault(); err != nil {
+		return err
+	}
 	return d.inner.Get(key, cb)
 }
 
